@@ -11,11 +11,4 @@ theorem dispatch_table_sound :
     ∀ e ∈ Generated.dispatchTable, ∀ l, lawOf e.fname = some l → handlerKind e.handler e.rank = some (requiredKind l) := by
   decide
 
-/-- (X) Running the model of `Units.__setattr__` / `parse` over the unit definitions extracted from `SI.py`
-succeeds (no collision between a prefixed and an unprefixed name) and every unit of the specification table
-has exactly the specified dimension and value. -/
-theorem si_units_sound :
-    ∃ U, defineAll [] Generated.unitDefs = .ok U ∧ (∀ e ∈ siSpec, lookup U e.1 = some e.2) ∧ (∀ n ∈ siAbsent, lookup U n = none) := by
-  decide +kernel
-
 end NutilsVerif.C20
